@@ -233,7 +233,9 @@ pub fn enc_case<T: ZooVal + Serialize + Deserialize + WithSchema>(name: &str, r:
         }
     }
     // ---- other passwords
-    for pw in ["", "correct horse ", "Correct horse", "correct hors", "x", &format!("{}{}", PASSWORD, r.next())] {
+    // (near misses included: padding that a key derivation might swallow — NUL bytes, spaces, a BOM)
+    for pw in ["", "correct horse ", "Correct horse", "correct hors", "x", &format!("{}{}", PASSWORD, r.next()),
+               &format!("{}\0", PASSWORD), &format!("{}\0\0", PASSWORD), &format!("\u{feff}{}", PASSWORD), &format!(" {}", PASSWORD)] {
         let rep = load_file_api::<T>(&path, ver, pw);
         stat(&mut out, if rep.starts_with("(err") { "password-rejected" } else { "password-other" });
         judge(&mut out, "wrong-password", &rep, format!("password={:?}", pw).replace(' ', "_"));
